@@ -314,6 +314,9 @@ func hash(outer, t types.Type, x value) int {
 
 // load returns the value of type T in *addr.
 func load(T types.Type, addr *value) value {
+	if s, ok := (*addr).(Sym); ok {
+		return s // an opaque (uninterpreted) aggregate
+	}
 	switch T := T.Underlying().(type) {
 	case *types.Struct:
 		v := (*addr).(structure)
@@ -336,6 +339,14 @@ func load(T types.Type, addr *value) value {
 
 // store stores value v of type T into *addr.
 func store(T types.Type, addr *value, v value) {
+	if _, ok := v.(Sym); ok {
+		*addr = v
+		return
+	}
+	if _, ok := (*addr).(Sym); ok {
+		*addr = v
+		return
+	}
 	switch T := T.Underlying().(type) {
 	case *types.Struct:
 		lhs := (*addr).(structure)
